@@ -37,7 +37,8 @@ type Profile struct {
 	PPush              int // weight of Callback steps issued from outside on a push-enabled server (out of 100 steps)
 	Pins               bool
 	Chans              []string
-	PBaseDeadline      int // probability (out of 100) of a server whose request contexts have a 50ms deadline
+	PBaseDeadline      int    // probability (out of 100) of a server whose request contexts have a 50ms deadline
+	PrefixGates        [2]int // the script opens with this many (min, max; capped below the limit) single parking calls, one per record
 }
 
 // State is the generator's picture of the script so far.
@@ -186,6 +187,21 @@ func ServerScenario(t *rapid.T, p Profile) sim.Scenario {
 		sc.Cfg.Faults = append(sc.Cfg.Faults, sim.Fault{Op: "send", At: rapid.IntRange(1, 6).Draw(t, "faultat"), Kind: "err"})
 	}
 	st := &State{IDOf: map[int]string{}, window: map[string]bool{}, push: sc.Cfg.AllowPush}
+	if p.PrefixGates[1] > 0 {
+		hi := min(p.PrefixGates[1], sc.Cfg.Concurrency-1)
+		m := rapid.IntRange(min(p.PrefixGates[0], hi), hi).Draw(t, "prefixgates")
+		for i := 0; i < m; i++ {
+			st.nextK++
+			st.nextID++
+			k, id := st.nextK, fmt.Sprint(st.nextID)
+			st.IDOf[k] = id
+			st.LiveIDs = append(st.LiveIDs, id)
+			st.Pending = append(st.Pending, k)
+			sc.Steps = append(sc.Steps, sim.Step{Op: "send", Burst: rapid.Bool().Draw(t, "pburst"),
+				Rec: engine.Bytes(fmt.Sprintf(`{"jsonrpc":"2.0","id":%s,"method":"gate","params":{"k":%d}}`, id, k))})
+		}
+		sc.Steps[len(sc.Steps)-1].Burst = false
+	}
 	n := rapid.IntRange(p.MinSteps, p.MaxSteps).Draw(t, "nsteps")
 	outcomes := p.Outcomes
 	if len(outcomes) == 0 {
